@@ -1,7 +1,130 @@
-import StepModel.ComplexMatch
+import StepModel.ComplexLemmas
 import StepModel.ComplexBuild
-namespace StepModel.Complex
+/-!
+# C08 — complex instances are accepted exactly when the supertype constraints allow them
 
-theorem C08_stub : Match.mkNames [] = [] := rfl
+What is proved here (for all inputs unless the name says otherwise):
+
+* `C08_order_irrelevant` / `C08_order_irrelevant_perm` — the verdict of the matcher model depends only on the *set* of part
+  names: order and repetition of the parts in the file do not matter (the `EntNode` constructor builds the strictly
+  ascending list of the distinct names).
+* `C08_and_flatten_meaning` — the same-operator flattening `MultList::processSubExp` applies to AND keeps the plain
+  meaning of the tree (list-for-list), `C08_prodD_append` being the underlying law of the AND meaning.
+* ties to regenerated constants: `C08_enum_order`, `C08_listEnd_sentinel`, `C08_or_start_values`,
+  `C08_null_step_guarded` (the backwards step of `MultList::tryNext` tests the pointer — false on the tree before
+  `fixes/C08-1-…`, where the matcher model answers `crash firstCandidateNull` and the real matcher dies under UBSan /
+  segfaults at -O2).
+* fixed inputs evaluated by the kernel on the model and replayed on the real code in every run (`checks/c08.py`, FIXED):
+  `C08_collectOf_example`, `C08_oneof_violation_refused`, `C08_oneof_legal_accepted`,
+  `C08_sound_witness` (a diamond below one root: `{a,b,d}` is accepted although `d`'s supertype `c` is missing),
+  `C08_complete_witness` (a single non-abstract root written in external mapping is refused).
+
+Not proved (tested exhaustively instead, see notes/C08.md): `supports` ⟷ `evalB` for all trees, `evalB ∘ collectOf` ⟷ `Legal`.
+-/
+namespace StepModel.Complex
+open StepModel.Generated Match
+
+/-- Order and repetition of the parts do not matter: requests naming the same set of entities get the same outcome. -/
+theorem C08_order_irrelevant (c : Collect) (mult parts parts' : List Name)
+    (h : ∀ x, x ∈ parts ↔ x ∈ parts') : supports c mult parts = supports c mult parts' := by
+  unfold supports mkEnts
+  rw [mkNames_ext parts parts' h]
+
+theorem C08_order_irrelevant_perm (c : Collect) (mult parts parts' : List Name)
+    (h : parts.Perm parts') : supports c mult parts = supports c mult parts' :=
+  C08_order_irrelevant c mult parts parts' (fun _ => h.mem_iff)
+
+/-- the request list is the strictly ascending list of the distinct part names -/
+theorem C08_request_sorted (parts : List Name) :
+    (mkNames parts).Pairwise (· < ·) ∧ ∀ x, x ∈ mkNames parts ↔ x ∈ parts :=
+  ⟨sorted_mkNames parts, mem_mkNames parts⟩
+
+example : supports [] [] [2, 0, 1] = supports [] [] [0, 1, 2, 1] :=
+  C08_order_irrelevant _ _ _ _ (by intro x; simp only [List.mem_cons, List.mem_nil_iff, or_false]; grind)
+
+/-- law of the AND meaning: deriving from `ds ++ es` is deriving from `ds`, then from `es` -/
+theorem C08_prodD_append (ds es : List (List (List Name))) :
+    prodD (ds ++ es) = (prodD ds).flatMap (fun x => (prodD es).map (fun y => x ++ y)) := by
+  induction ds with
+  | nil => simp [prodD]
+  | cons d ds ih =>
+    simp [prodD, ih, List.flatMap_assoc, List.map_flatMap, List.flatMap_map, List.append_assoc, Function.comp_def]
+
+theorem denoteL_append (as bs : List Tree) : denoteL (as ++ bs) = denoteL as ++ denoteL bs := by
+  induction as with
+  | nil => simp [denoteL]
+  | cons a as ih => simp [denoteL, ih]
+
+/-- `processSubExp` puts the operands of an AND that sits directly inside an AND on the parent's own level;
+the flattened tree derives exactly the same name lists, in the same order. -/
+theorem C08_and_flatten_meaning (as bs cs : List Tree) :
+    denote (.and (as ++ [.and bs] ++ cs)) = denote (.and (as ++ bs ++ cs)) := by
+  simp only [denote, denoteL_append, denoteL, List.append_assoc]
+  rw [C08_prodD_append, C08_prodD_append (denoteL as)]
+  congr 1
+  funext x
+  congr 1
+  show prodD (prodD (denoteL bs) :: denoteL cs) = prodD (denoteL bs ++ denoteL cs)
+  rw [C08_prodD_append]
+  rfl
+
+-- ------------------------------------------------------------------ regenerated constants the model relies on
+theorem C08_enum_order : markTypeNames = assumedMarkNames ∧ matchTypeNames = assumedMatchNames := by decide
+
+/-- `LISTEND` can only work as "beyond the last choice" while an OrList has at most that many children -/
+theorem C08_listEnd_sentinel (n : Nat) (h : (n : Int) ≤ listEnd) : inRange listEnd n = none := by
+  unfold inRange
+  have : ¬ (0 ≤ listEnd ∧ listEnd < (n : Int)) := by omega
+  simp [this]
+
+theorem C08_or_start_values : orInitChoice = -1 ∧ orResetChoice = -1 ∧ inRange orInitChoice1 0 = none ∧
+    inRange orResetChoice1 0 = none ∧ orInitCount = 0 ∧ orResetCount = 0 := by decide
+
+/-- `MultList::tryNext` does not call a member through the null `prev` of a first child -/
+theorem C08_null_step_guarded : tryNextNullSafe = true := by decide
+
+-- ------------------------------------------------------------------ fixed inputs (replayed on the real code every run)
+/-- `a SUPERTYPE OF (ONEOF(b, c) ANDOR d)`, `b c d SUBTYPE OF (a)`; names by rank: a=0 b=1 c=2 d=3 -/
+def exOneofAndor : Schema :=
+  [ { name := 0, abstract := false, supers := [], subs := [1, 2, 3],
+      expr := some (.andor (.oneof [.ent 1, .ent 2]) (.ent 3)) },
+    { name := 1, abstract := false, supers := [0], subs := [], expr := none },
+    { name := 2, abstract := false, supers := [0], subs := [], expr := none },
+    { name := 3, abstract := false, supers := [0], subs := [], expr := none } ]
+
+def exOneofAndorTree : Collect := [.and [.simple 0, .andor [.or [.simple 1, .simple 2], .simple 3]]]
+
+theorem C08_collectOf_example : collectOf exOneofAndor 50 = some exOneofAndorTree := by rfl
+
+/-- the ONEOF violation `#n=(A()B()C());` is refused — it does not crash (on the tree before the fix the model
+answers `crash firstCandidateNull` here and this theorem does not check) -/
+theorem C08_oneof_violation_refused :
+    supports exOneofAndorTree [] [0, 1, 2] = .ok false ∧ Legal exOneofAndor [0, 1, 2] = false := by decide +kernel
+
+theorem C08_oneof_legal_accepted :
+    supports exOneofAndorTree [] [3, 0, 1] = .ok true ∧ Legal exOneofAndor [3, 0, 1] = true := by decide +kernel
+
+/-- diamond below one root: `a SUPERTYPE OF (b ANDOR c)`, `d SUBTYPE OF (b, c)`; a=0 b=1 c=2 d=3 -/
+def exDiamond : Schema :=
+  [ { name := 0, abstract := false, supers := [], subs := [1, 2], expr := some (.andor (.ent 1) (.ent 2)) },
+    { name := 1, abstract := false, supers := [0], subs := [3], expr := none },
+    { name := 2, abstract := false, supers := [0], subs := [3], expr := none },
+    { name := 3, abstract := false, supers := [1, 2], subs := [], expr := none } ]
+
+def exDiamondTree : Collect :=
+  [.and [.simple 0, .andor [.or [.simple 1, .and [.simple 1, .andor [.simple 3]]],
+                            .or [.simple 2, .and [.simple 2, .andor [.simple 3]]]]]]
+
+theorem C08_diamond_collectOf : collectOf exDiamond 50 = some exDiamondTree := by rfl
+
+/-- Soundness fails on the current code: `{a, b, d}` lacks `d`'s supertype `c`, yet the matcher accepts it
+(finding `several-supertypes:accepts-illegal`). -/
+theorem C08_sound_witness :
+    supports exDiamondTree [3] [0, 1, 3] = .ok true ∧ Legal exDiamond [0, 1, 3] = false := by decide +kernel
+
+/-- Completeness fails on the current code: the non-abstract root alone is a legal set, yet `#n=(A());` is refused
+(finding `single-part-refused`; ISO 10303-21 wants such an instance in internal mapping). -/
+theorem C08_complete_witness :
+    supports exOneofAndorTree [] [0] = .ok false ∧ Legal exOneofAndor [0] = true := by decide +kernel
 
 end StepModel.Complex
